@@ -156,6 +156,10 @@ def normal_form_problems(m, top=True) -> list[str]:
         if not top:
             probs.append(f"{shape(m)}-inside-compound")
         return probs
+    if isinstance(m, (EqualityMarkerUnion, InequalityMultiMarker)):
+        if len(m.values) == 0:  # not an atom group at all: it renders as the empty text
+            probs.append(f"{shape(m)}-with-0-values")
+        return probs
     if isinstance(m, SingleMarker):
         return probs
     if isinstance(m, (MultiMarker, MarkerUnion)):
